@@ -203,7 +203,8 @@ func runC15(tier string, seed int64) int {
 	// ---- 4. versions ----
 	want, verr := repoVersion()
 	if verr != nil {
-		res.notes["version_file"] = verr.Error()
+		// without the repository version the clause cannot be judged: that is a harness error, not a pass
+		hpanic("C15: repository version: %v", verr)
 	} else {
 		for _, src := range []string{"fresh", "embedded"} {
 			set := map[string]*Compiled{}
